@@ -148,7 +148,10 @@ def stage2():
             continue
         f = sid.split('-')[1]
         assert subprocess.run(['git', '-C', '/repo', 'status', '--porcelain'], capture_output=True, text=True).stdout.strip() == ''
-        subprocess.run(['git', '-C', '/repo', 'apply', f'{MUT}/survivors/{s}'], check=True)
+        if subprocess.run(['git', '-C', '/repo', 'apply', f'{MUT}/survivors/{s}']).returncode != 0:
+            # the tree moved on since stage 1 (a fix: commit next to the mutated line): 3-way
+            subprocess.run(['git', '-C', '/repo', 'apply', '-3', f'{MUT}/survivors/{s}'], check=True)
+            subprocess.run(['git', '-C', '/repo', 'reset', '-q'])
         caught = []
         try:
             # cheap ones first; stop at the first three that catch it
